@@ -44,6 +44,9 @@ type Action struct {
 type Scenario struct {
 	Name    string
 	Horizon int
+	// HorizonIsLivelock: an execution that still has something to do when the horizon is reached never comes
+	// to rest (the horizon is several times the length of any terminating execution of the scenario): reported.
+	HorizonIsLivelock bool
 	Setup   func(w *World)
 	// Actions lists the enabled actions at the current quiescent state; index 0 is the default policy's choice.
 	Actions func(w *World) []Action
@@ -636,6 +639,20 @@ func Exec(t *testing.T, sc *Scenario, arg json.RawMessage, prefix []int, expect 
 				break
 			}
 		}
+		if sc.HorizonIsLivelock && w.Step >= horizon && w.Dead == "" && res.Diverged == "" {
+			tail := w.Labels
+			if len(tail) > 9 {
+				tail = tail[len(tail)-9:]
+			}
+			cyc := ""
+			for _, l := range tail { // the key names the cycle by its smallest loop delivery, whatever step the horizon cut it at
+				if strings.HasPrefix(l, "deliver:") && (cyc == "" || l < cyc) {
+					cyc = l
+				}
+			}
+			w.Failf("livelock."+strings.TrimPrefix(cyc, "deliver:"), "after %d steps the client still has not come to rest; the last steps repeat: %s", w.Step, strings.Join(tail, " ; "))
+			w.Dead = "livelock"
+		}
 		if w.Dead == "" && res.Diverged == "" && sc.Final != nil {
 			sc.Final(w)
 		}
@@ -646,7 +663,7 @@ func Exec(t *testing.T, sc *Scenario, arg json.RawMessage, prefix []int, expect 
 		for _, f := range w.Fails {
 			res.Violations = append(res.Violations, core.Violation{Key: f.Key, Desc: f.Desc + "\n  history: " + strings.Join(w.Labels, " ; "), Replay: map[string]any{"scenario": sc.Name, "arg": arg, "choices": res.Trace.Choices, "labels": w.Labels}, Count: 1})
 		}
-		if w.Dead == "panic" || w.Dead == "hang" || res.Diverged != "" {
+		if w.Dead == "panic" || w.Dead == "hang" || w.Dead == "livelock" || res.Diverged != "" {
 			// the bubble is poisoned: report and leave the process
 			res.Partial = true
 			os.RemoveAll(dir)
